@@ -21,7 +21,12 @@ fn main() {
     install_panic_capture();
     let path = std::env::args().nth(1).unwrap();
     let mut rep = Report::new();
+    let mut ncase = 0usize;
     for_each_case(&path, "CASE", |c| {
+        ncase += 1;
+        // every other case has a poison pattern (mozjemalloc's 0xe5) in a register the crashing instruction does not use: it lowers the
+        // confidence of every candidate and must leave it inside [0, 1]
+        let poison: Vec<(usize, u64)> = if ncase % 2 == 1 { vec![(240usize, 0xe5e5_e5e5_e5e5_e5e5)] } else { vec![] };
         let scen = c["scen"].as_str().unwrap();
         let cpu = c["cpu"].as_str().unwrap();
         let op = c["op"].as_str().unwrap();
@@ -47,7 +52,7 @@ fn main() {
             spec.extra_memory.push((0x7000_0000, vec![opc, 0x43, 0x10, 0x90, 0x90, 0x90, 0x90, 0x90, 0x90, 0x90, 0x90, 0x90, 0x90, 0x90, 0x90, 0x90]));
             info[0] = if op == "read" { 0 } else { 1 };
             info[1] = examined + 16;
-            ExcSpec { tid: 1, has_ctx: true, ctx_ok: true, ctx_ip: 0x7000_0000, ctx_sp: 0x10000, code: 0xC000_0005, flags: 0, address: 0x7000_0000, nparams: 2, info, ctx_patch: vec![(144usize, examined)] }
+            ExcSpec { tid: 1, has_ctx: true, ctx_ok: true, ctx_ip: 0x7000_0000, ctx_sp: 0x10000, code: 0xC000_0005, flags: 0, address: 0x7000_0000, nparams: 2, info, ctx_patch: { let mut p = vec![(144usize, examined)]; p.extend(poison.iter().cloned()); p } }
         } else {
             // Linux SIGSEGV / SI_KERNEL at address 0: a general-protection fault; the instruction at rip is `mov rax, [rbx]`
             spec.extra_memory.push((0x7000_0000, vec![0x48, 0x8b, 0x03, 0x90, 0x90, 0x90, 0x90, 0x90, 0x90, 0x90, 0x90, 0x90, 0x90, 0x90, 0x90, 0x90]));
@@ -56,6 +61,7 @@ fn main() {
                 // "nearby registers" heuristic of the confidence is saturated
                 let mut p = vec![(144usize, examined)];
                 for off in [120usize, 128, 136, 160, 168, 176, 184, 192, 200, 208, 216, 224, 232, 240] { p.push((off, 0x10010)); }
+                p.extend(poison.iter().cloned());
                 p } }
         };
         spec.exception = Some(exc);
